@@ -132,7 +132,7 @@ def astoreS (ue : List Ent) (ua : List String) (s : AStore) : Sexp :=
 def runModelS (env : Env) : MState → List Op → List Sexp
   | _, [] => []
   | ms, op :: ops =>
-    let r := step env ms op
+    let r := step Fixes.current env ms op
     .list [outS r.2, storeS r.1.store] :: runModelS env r.1 ops
 
 def runSpecS (env : Env) (ue : List Ent) (ua : List String) : AState → List Op → List Sexp
@@ -150,7 +150,7 @@ def handle (x : Sexp) : String :=
       let ua := (ops.flatMap opAttrs ++ VIRTUAL ++ STATE_VIRTUAL_ATTRS).eraseDups
       let m := Sexp.render (.list (runModelS env ⟨[], []⟩ ops))
       let s := Sexp.render (.list (runSpecS env ue ua ⟨fun _ => Option.none, []⟩ ops))
-      let c := String.ofList (ops.map (fun o => if Conf env o then '1' else '0'))
+      let c := String.ofList (ops.map (fun o => if Conf Fixes.current env o then '1' else '0'))
       s!"ok model={m} spec={s} conf={c}"
     | _, _ => "err parse"
   | _ => "err bad-command"
